@@ -16,7 +16,6 @@ package best
 import (
 	"bytes"
 	"context"
-	"math/big"
 	"time"
 
 	eth2client "github.com/attestantio/go-eth2-client"
@@ -206,7 +205,7 @@ func (s *Service) Proposal(ctx context.Context,
 	}
 
 	span.SetAttributes(
-		attribute.String("value", new(big.Int).Add(bestProposal.ConsensusValue, bestProposal.ExecutionValue).String()),
+		attribute.String("value", proposalValue(bestProposal).String()),
 		attribute.Bool("blinded", bestProposal.Blinded),
 	)
 	return &api.Response[*api.VersionedProposal]{
